@@ -306,9 +306,10 @@ def _warm_state(env, learn, optimizer, opt, k):
 # --------------------------------------------------------------------------
 
 
-def _lightning_stub(solver, n_steps, validate, start_step, after_step, around_val, restore=None):
-    """what pl.Trainer.fit does with a LightningModule under automatic optimisation (one optimizer, one epoch of n_steps
-    batches; see META['assumptions'])"""
+def _lightning_stub(solver, n_steps, validate, start_step, after_step, around_val, restore=None, epoch_len=None):
+    """what pl.Trainer.fit does with a LightningModule under automatic optimisation (one optimizer; one epoch of n_steps
+    batches, or -- epoch_len, i.e. Trainer(limit_train_batches=epoch_len) -- epochs of epoch_len batches with the
+    documented hook order on_train_start, (on_train_epoch_start, batches, on_train_epoch_end)*; see META['assumptions'])"""
     solver.log = lambda *a, **k: None
     cfg = solver.configure_optimizers()
     if isinstance(cfg, torch.optim.Optimizer):
@@ -322,7 +323,12 @@ def _lightning_stub(solver, n_steps, validate, start_step, after_step, around_va
     solver.on_train_start()
     if start_step:
         solver.n_training_step = start_step
-    for batch_idx in range(n_steps):
+    if epoch_len:
+        assert not sched_cfgs  # Lightning counts scheduler frequencies per epoch-local batch index: not modelled
+    for step in range(n_steps):
+        batch_idx = step % epoch_len if epoch_len else step
+        if epoch_len and batch_idx == 0:
+            solver.on_train_epoch_start()
         loss = solver.training_step(None, batch_idx)
         optimizer.zero_grad()
         loss.backward()
@@ -330,9 +336,11 @@ def _lightning_stub(solver, n_steps, validate, start_step, after_step, around_va
         for sc in sched_cfgs:
             if sc["interval"] == "step" and (batch_idx + 1) % sc["frequency"] == 0:
                 sc["scheduler"].step()
-        after_step(batch_idx, optimizer)
+        after_step(step, optimizer)
         if validate:
-            around_val(lambda: _validate(solver), batch_idx)
+            around_val(lambda: _validate(solver), step)
+        if epoch_len and (batch_idx == epoch_len - 1 or step == n_steps - 1):
+            solver.on_train_epoch_end()
     return optimizer, sched_cfgs
 
 
@@ -385,7 +393,7 @@ def _reference_loop(env, wd, opt, lr, sched, freq, n_steps, start_step, warm):
 
 
 def train_case(train, opt, lr, steps, sched=None, freq=1, val=(), start=0, hidden=2, n=2, pyweights=False, warm=0,
-               prior_lr=None):
+               prior_lr=None, epoch_len=None):
     """warm=k: both runs start from an arbitrary symbolic optimizer state 'after k steps' (step counter k)"""
     start = warm or start
     name = "%s/%s/%s_lr%g/%s%s/steps%d%s%s/h%d%s" % (
@@ -393,6 +401,8 @@ def train_case(train, opt, lr, steps, sched=None, freq=1, val=(), start=0, hidde
         "/val=" + "+".join(val) if val else "", "/start%d" % start if start else "", hidden, "/pyweights" if pyweights else "")
     if prior_lr is not None:
         name += "/after_other_training_lr%g" % prior_lr
+    if epoch_len:
+        name += "/epochs_of%d" % epoch_len
     opt_cls, opt_args = OPTS[opt]
     sched_cls, sched_args = SCHEDS[sched]
 
@@ -432,7 +442,7 @@ def train_case(train, opt, lr, steps, sched=None, freq=1, val=(), start=0, hidde
             marks[-1] = len(A.calls)
 
         restore = (lambda o_: _warm_state(env, learnA, o_, opt, warm)) if warm else None
-        optimizer, sched_cfgs = _lightning_stub(solver, steps, bool(val), start, after_step, around_val, restore)
+        optimizer, sched_cfgs = _lightning_stub(solver, steps, bool(val), start, after_step, around_val, restore, epoch_len=epoch_len)
         in_opt = {id(p) for g in optimizer.param_groups for p in g["params"]}
         per_step = [[c for c in A.calls[marks[k]:marks[k + 1]] if c[0] == "train"] for k in range(steps)]
         # ---------------- run B: reference loop on the twin ----------------
@@ -556,6 +566,11 @@ def cases(tier):
     cs.append(train_case(("pinn", "mean"), "sgd", 0.5, 2, sched="steplr", hidden=1))
     cs.append(train_case(("pinn", "mean"), "sgd_m", 0.5, 1, hidden=1, warm=3))
     cs.append(train_case(("pinn", "mean"), "sgd", 0.125, 1, hidden=1, prior_lr=0.5))
+    # several epochs (Trainer(limit_train_batches=2)): the step index handed to the conditions is global, not per epoch
+    cs.append(train_case(("pinn", "iter"), "sgd", 0.5, 3, hidden=1, epoch_len=2))
+    # a Parameter that reaches the Solver through a ParameterCondition only
+    cs.append(train_case(("param",), "sgd", 0.5, 2, hidden=1))
+    cs.append(train_case(("param", "mean"), "sgd_m", 0.5, 2, hidden=1))
     if th:
         P3 = ("pinn", "mean", "adaptive")
         # 3 conditions incl. adaptive weights, 3 steps, SGD variants
